@@ -2,10 +2,14 @@ package engine
 
 import (
 	"fmt"
+	"math"
 	"strconv"
 	"strings"
 	"unicode"
 )
+
+// biggest full move counter accepted in FEN: the ply counter is an int16 and must leave room for the rest of the game and the search
+const maxFullMoveCounter = (math.MaxInt16 - plyBufferCapacity) / 2 - killerMovesMaxPly
 
 func NewPositionFromFen(fen string) (Position, error) {
 	if !isASCII(fen) {
@@ -24,34 +28,58 @@ func NewPositionFromFen(fen string) (Position, error) {
 
 	var pos Position = Position{enPassSquare: InvalidSquare}
 
+	blackKings, whiteKings := 0, 0
 	for fenRankIdx, rankStr := range rankStrings {
 		var r rank = rankFrom07Number(7 - fenRankIdx)
 		var f file = A
 		for _, c := range rankStr {
 			if c >= '1' && c <= '8' {
 				f += file(c - '0')
+				if f > H+1 {
+					return Position{}, fmt.Errorf("this rank has more than 8 files: %q", rankStr)
+				}
 				continue
+			}
+			if f > H {
+				return Position{}, fmt.Errorf("this rank has more than 8 files: %q", rankStr)
 			}
 			var sq square = square(r + rank(f))
 			piece := charToPiece(c)
 			if piece == NullPiece {
 				return Position{}, fmt.Errorf("uknown piece: %q", c)
 			}
+			if piece&ColorlessPiece == Pawn && (r == Rank1 || r == Rank8) {
+				return Position{}, fmt.Errorf("pawn on the first or last rank: %q", rankStr)
+			}
 			pos.board[sq] = piece
 			if piece == BKing {
 				pos.blackKing = sq
+				blackKings++
 			} else if piece == WKing {
 				pos.whiteKing = sq
+				whiteKings++
 			} else if piece&WhitePieceBit == 0 {
 				if piece == BPawn {
+					if pos.blackPawns.size == pawnCap {
+						return Position{}, fmt.Errorf("more than %d black pawns", pawnCap)
+					}
 					pos.blackPawns.appendPawn(sq)
-					} else {
+				} else {
+					if pos.blackPieces.size == pieceCap {
+						return Position{}, fmt.Errorf("more than %d black pieces", pieceCap)
+					}
 					pos.blackPieces.appendPiece(sq)
 				}
 			} else {
 				if piece == WPawn {
+					if pos.whitePawns.size == pawnCap {
+						return Position{}, fmt.Errorf("more than %d white pawns", pawnCap)
+					}
 					pos.whitePawns.appendPawn(sq)
 				} else {
+					if pos.whitePieces.size == pieceCap {
+						return Position{}, fmt.Errorf("more than %d white pieces", pieceCap)
+					}
 					pos.whitePieces.appendPiece(sq)
 				}
 			}
@@ -60,6 +88,13 @@ func NewPositionFromFen(fen string) (Position, error) {
 		if f != H+1 {
 			return Position{}, error(fmt.Errorf("this rank does not have 8 files: %q", rankStr))
 		}
+	}
+	if blackKings != 1 || whiteKings != 1 {
+		return Position{}, fmt.Errorf("each side must have exactly one king")
+	}
+	// every pawn may still promote, and a promoted piece needs a slot on the piece list
+	if int(pos.blackPieces.size+pos.blackPawns.size) > pieceCap || int(pos.whitePieces.size+pos.whitePawns.size) > pieceCap {
+		return Position{}, fmt.Errorf("more than %d pieces and pawns of one colour", pieceCap)
 	}
 
 	turnStr := fields[1]
@@ -70,6 +105,16 @@ func NewPositionFromFen(fen string) (Position, error) {
 	}
 
 	castleStr := fields[2]
+	if castleStr != "-" {
+		if castleStr == "" {
+			return Position{}, fmt.Errorf("empty castling rights field")
+		}
+		for _, c := range castleStr {
+			if !strings.ContainsRune("KQkq", c) {
+				return Position{}, fmt.Errorf("invalid castling rights: %v", castleStr)
+			}
+		}
+	}
 	if strings.Contains(castleStr, "K") {
 		pos.flags |= FlagWhiteCanCastleKside
 	}
@@ -82,11 +127,16 @@ func NewPositionFromFen(fen string) (Position, error) {
 	if strings.Contains(castleStr, "q") {
 		pos.flags |= FlagBlackCanCastleQside
 	}
+	// a castling right needs its king and rook on their home squares
+	if pos.flags&FlagWhiteCanCastleKside != 0 && (pos.board[E1] != WKing || pos.board[H1] != WRook) ||
+		pos.flags&FlagWhiteCanCastleQside != 0 && (pos.board[E1] != WKing || pos.board[A1] != WRook) ||
+		pos.flags&FlagBlackCanCastleKside != 0 && (pos.board[E8] != BKing || pos.board[H8] != BRook) ||
+		pos.flags&FlagBlackCanCastleQside != 0 && (pos.board[E8] != BKing || pos.board[A8] != BRook) {
+		return Position{}, fmt.Errorf("castling rights without king and rook on their home squares: %v", castleStr)
+	}
 
 	enPassantStr := fields[3]
-	if len(enPassantStr) > 2 {
-		return Position{}, fmt.Errorf("invalid en passant square: %v", enPassantStr)
-	} else if len(enPassantStr) == 2 {
+	if len(enPassantStr) == 2 {
 		fileChar := enPassantStr[0]
 		rankChar := enPassantStr[1]
 		if fileChar < 'a' || fileChar > 'h' || (rankChar != '3' && rankChar != '6') {
@@ -95,10 +145,26 @@ func NewPositionFromFen(fen string) (Position, error) {
 		file := fileChar - 'a'
 		rank := (rankChar - '1') << 4
 		pos.enPassSquare = square(file) + square(rank)
+		// the square is the one jumped over by a pawn of the side that has just moved
+		var jumpedFrom, pawnSquare square
+		var pushedPawn piece
+		if pos.flags&FlagWhiteTurn != 0 {
+			jumpedFrom, pawnSquare, pushedPawn = pos.enPassSquare+square(DirN), pos.enPassSquare-square(DirN), BPawn
+		} else {
+			jumpedFrom, pawnSquare, pushedPawn = pos.enPassSquare-square(DirN), pos.enPassSquare+square(DirN), WPawn
+		}
+		if (rankChar == '6') != (pos.flags&FlagWhiteTurn != 0) || pos.board[pawnSquare] != pushedPawn ||
+			pos.board[pos.enPassSquare] != NullPiece || pos.board[jumpedFrom] != NullPiece {
+			return Position{}, fmt.Errorf("en passant square does not follow a double pawn push: %v", enPassantStr)
+		}
+	} else if enPassantStr != "-" {
+		return Position{}, fmt.Errorf("invalid en passant square: %v", enPassantStr)
 	}
 
-	//TODO read rest of the fields
-	// halfmoveClockStr := fields[4]
+	halfmoveClockStr := fields[4]
+	if halfmoveClock, err := strconv.Atoi(halfmoveClockStr); err != nil || halfmoveClock < 0 {
+		return Position{}, fmt.Errorf("invalid halfmove clock: %v", halfmoveClockStr)
+	}
 
 	fullMoveCounterStr := fields[5]
 	fullMoveCounter, err := strconv.Atoi(fullMoveCounterStr)
@@ -109,11 +175,22 @@ func NewPositionFromFen(fen string) (Position, error) {
 		return Position{}, fmt.Errorf("full move counter is not 1-based: %d", fullMoveCounter)
 	}
 
+	if fullMoveCounter > maxFullMoveCounter {
+		return Position{}, fmt.Errorf("full move counter is too big: %d", fullMoveCounter)
+	}
+
 	pos.ply = int16((fullMoveCounter-1)*2)
 	if pos.flags & FlagWhiteTurn == 0 {
 		pos.ply++
 	}
-	
+
+	// the side that has just moved cannot have left its king attacked
+	pos.flags ^= FlagWhiteTurn
+	kingCanBeCaptured := pos.isCurrentKingUnderCheck()
+	pos.flags ^= FlagWhiteTurn
+	if kingCanBeCaptured {
+		return Position{}, fmt.Errorf("side not to move is in check")
+	}
 
 	return pos, nil
 }
